@@ -46,7 +46,8 @@ package gonum
 //@ panics iff !valid, before-writes
 //@ writes x[start(n,incX)+k*incX] for k in 0..n ; y[start(n,incY)+k*incY] for k in 0..n
 //@ reads nothing
-//@ ensures disjoint(x, y) ==> forall(k, 0, n, same(x[start(n,incX)+k*incX], old(y[start(n,incY)+k*incY])) && same(y[start(n,incY)+k*incY], old(x[start(n,incX)+k*incX])))
+// (operands in disjoint slices, or two rows of one matrix: unit increments and non-overlapping cell ranges)
+//@ ensures disjoint(x, y) || (incX == 1 && incY == 1 && (x.off+n <= y.off || y.off+n <= x.off)) ==> forall(k, 0, n, same(x[start(n,incX)+k*incX], old(y[start(n,incY)+k*incY])) && same(y[start(n,incY)+k*incY], old(x[start(n,incX)+k*incX])))
 
 //@ func Implementation.Drot Implementation.Srot Implementation.Drotm Implementation.Srotm props: C01(frame) C07(safety)
 //@ valid incX != 0 && incY != 0 && n >= 0 && vec(x, n, incX) && vec(y, n, incY)
